@@ -1,0 +1,21 @@
+//go:build verif
+
+package utils
+
+// Exporting shim for the external verification harness (property C12).
+// No behaviour: it only reads the state under the cache lock.
+
+// VerifC12Snapshot returns the entries physically held by the cache (keys,
+// values and expiry instants, in map order) and the current size counter.
+func (cache *MemoryCache[K, V]) VerifC12Snapshot() (
+	keys []K, values []V, expiriesNano []int64, currentSize float64,
+) {
+	cache.mutex.RLock()
+	defer cache.mutex.RUnlock()
+	for key, wrapper := range cache.cache {
+		keys = append(keys, key)
+		values = append(values, wrapper.value)
+		expiriesNano = append(expiriesNano, wrapper.expirationTimeNano)
+	}
+	return keys, values, expiriesNano, cache.currentCacheSize
+}
